@@ -45,6 +45,33 @@ def burst_script(rng, par=None, jcs=None, extra=None, trials=20):
     return sc
 
 
+def refresh_full_queue_script(rng, trials=20):
+    """An expired-but-servable key is refreshed while the job queue is full: the refresh job must
+    still be submitted (blocking), otherwise its already published Future never resolves."""
+    ne = rng.choice([1600, 4800, 1008])
+    par, jcs = 1, rng.choice([1, 1, 2])
+    nfill = jcs                      # jobs that fill the queue while the only worker is busy
+    keys = cc.pick_keys(rng, 2 + nfill)
+    kdur = 17
+    ld = [[(kdur, 1, 0), (33, 1, rng.choice([0, 0, 7]))],            # key 0: first load, then the refresh
+          [(3 * ne + 1, 1, 0)]] + [[(1, 1, 0)] for _ in range(nfill)]  # key 1: hog; others: queue fillers
+    sc = cc.Script(ne, ne, par, jcs, keys, ld, trials=trials)
+    used = set()
+    a0 = sc.add(cc.free_instant(used, 0), "L", 0)
+    u = kdur
+    t1 = u + ne + 16 * rng.range(1, (ne - 64) // 16)            # inside [u+E, u+2E)
+    t1 -= t1 % 16
+    sc.add(cc.free_instant(used, t1 - 16 * (nfill + 1)), "L", 1)       # the hog occupies the worker
+    for j in range(nfill):
+        sc.add(cc.free_instant(used, t1 - 16 * (nfill - j)), "L", 2 + j)   # queue now full
+    sc.add(cc.free_instant(used, t1), "L", 0)                    # expired: refresh while the queue is full
+    late = t1 + 6 * ne
+    for kind in rng.choice([["L", "G"], ["G", "L"], ["L"], ["g", "L"]]):
+        late = cc.free_instant(used, late + 16)
+        sc.add(late, kind, 0)
+    return sc
+
+
 def d2_script(trials=20):
     """the refutation scenario of DESIGN.md D2: parallel=1, jobChanSize=1, 6 Loads, 5E loaders"""
     ne = 1600
@@ -102,6 +129,7 @@ def run(chk):
             nb = 40 if quick else 400
             streams.append(("bursts", [burst_script(chk.rng, trials=20 if quick else 50) for _ in range(nb)]))
             streams.append(("bursts-parallel1-queue1", [burst_script(chk.rng, par=1, jcs=1, trials=20 if quick else 50) for _ in range(20 if quick else 200)]))
+            streams.append(("refresh-while-queue-full", [refresh_full_queue_script(chk.rng, trials=10 if quick else 30) for _ in range(12 if quick else 120)]))
             small_scripts = []
             for _ in range(4 if quick else 30):
                 sc = burst_script(chk.rng, par=chk.rng.choice([1, 1, 2]), jcs=1, extra=1, trials=20)
